@@ -1,17 +1,234 @@
-//! C18 — stub (monitor not written yet)
-use serde_json::Value;
+//! C18 — combined names split and join at the ecosystem separator.
+//!
+//! Oracle: a three-line split model, and the inverse relation
+//! `builder_with_combined_name(ty, p.combined_name())` for typed PURLs meeting the side
+//! condition of the statement.
 
-use super::Fail;
-use crate::obs::{Ctx, Tier};
+use purl::{PackageType, Purl};
+use serde_json::{json, Value};
 
-pub const RULE: &str = "";
+use super::{str_field, Fail};
+use crate::exec::{mk_typed, ALL_TYPES};
+use crate::gen;
+use crate::mon::c15::r8;
+use crate::obs::{self, guard, Ctx, Out, Tier};
+use crate::rng::fnv;
+use crate::shrink::shrink_str;
+use crate::spell;
 
-pub fn requirements(_tier: Tier) -> Vec<(&'static str, u64)> {
-    vec![("not-implemented", 1)]
+pub const RULE: &str = "a case is (package type, combined-name string) for the split, or one typed PURL for the inverse; non-trivial = the string contains the type's separator (split) resp. the PURL has a namespace (inverse); distinct by hash of (type, string)";
+
+pub fn requirements(tier: Tier) -> Vec<(&'static str, u64)> {
+    let q = tier == Tier::Quick;
+    vec![
+        ("split-checked", if q { 500_000 } else { 10_000_000 }),
+        ("exhaustive:short-strings-x-type", 7 * (0..=6u32).map(|l| 5u64.pow(l)).sum::<u64>()),
+        ("split:separator-present", 100_000),
+        ("split:nothing-before-separator", 5_000),
+        ("split:several-separators", 50_000),
+        ("inverse-checked", 20_000),
+        ("inverse-skipped-by-side-condition", 100),
+        ("inverse:with-namespace", 10_000),
+    ]
 }
 
-pub fn run(_ctx: &mut Ctx) {}
+/// Split model: (namespace or "", name).
+pub fn model_split(ty: &str, s: &str) -> (String, String) {
+    match ty {
+        "golang" | "npm" => match s.rfind('/') {
+            Some(i) => (s[..i].to_string(), s[i + 1..].to_string()),
+            None => (String::new(), s.to_string()),
+        },
+        "maven" => match s.find(':') {
+            Some(i) => (s[..i].to_string(), s[i + 1..].to_string()),
+            None => (String::new(), s.to_string()),
+        },
+        _ => (String::new(), s.to_string()),
+    }
+}
 
-pub fn replay(_monitor: &str, _case: &Value) -> Result<Option<Fail>, String> {
-    Err("not implemented".into())
+pub fn judge_split(ty: &str, s: &str) -> Option<Fail> {
+    let t = mk_typed(ty)?;
+    let b = match guard("Purl::builder_with_combined_name", || Purl::builder_with_combined_name(t, s)) {
+        Out::Ok(b) => b,
+        o => return Some(Fail::tagged("panicked", ty, format!("builder_with_combined_name({ty}, {s:?}): {}", o.kind()))),
+    };
+    let (ns, name) = model_split(ty, s);
+    if b.parts.namespace.as_str() != ns || b.parts.name.as_str() != name {
+        return Some(Fail::tagged(
+            "split-differs",
+            ty,
+            format!("builder_with_combined_name({ty}, {s:?}) put namespace {:?} / name {:?}; the rule gives namespace {ns:?} / name {name:?}", b.parts.namespace.as_str(), b.parts.name.as_str()),
+        ));
+    }
+    if b.package_type != t || !b.parts.version.is_empty() || !b.parts.subpath.is_empty() || !b.parts.qualifiers.is_empty() {
+        return Some(Fail::tagged("other-field-touched", ty, format!("builder_with_combined_name({ty}, {s:?}) set something besides namespace and name")));
+    }
+    None
+}
+
+/// Inverse relation on a typed PURL. Ok(true) = checked, Ok(false) = side condition not met.
+pub fn judge_inverse(p: &Purl) -> Result<bool, Fail> {
+    let t = *p.package_type();
+    let ty = r8(t);
+    let applies = match ty {
+        "golang" | "npm" => !p.name().contains('/'),
+        "maven" => !p.namespace().unwrap_or("").contains(':'),
+        _ => p.namespace().is_none(),
+    };
+    if !applies {
+        return Ok(false);
+    }
+    let c = match guard("combined_name", || p.combined_name().into_owned()) {
+        Out::Ok(c) => c,
+        o => return Err(Fail::tagged("panicked", ty, format!("combined_name(): {}", o.kind()))),
+    };
+    let b = Purl::builder_with_combined_name(t, c.as_str());
+    match obs::build(b) {
+        Out::Ok(q) => {
+            if q.namespace() != p.namespace() || q.name() != p.name() {
+                return Err(Fail::tagged(
+                    "inverse-differs",
+                    ty,
+                    format!("{ty} PURL with namespace {:?} / name {:?}: combined_name() = {c:?}, which splits back into namespace {:?} / name {:?}", p.namespace(), p.name(), q.namespace(), q.name()),
+                ));
+            }
+            Ok(true)
+        },
+        o => Err(Fail::tagged("inverse-build-failed", ty, format!("{ty} PURL namespace {:?} / name {:?}: combined_name() = {c:?} does not build: {}", p.namespace(), p.name(), o.kind()))),
+    }
+}
+
+fn judge_inverse_str(s: &str) -> Option<Result<bool, Fail>> {
+    obs::parse::<PackageType>(s).ok().map(|p| judge_inverse(&p))
+}
+
+fn split_case(ctx: &mut Ctx, ty: &'static str, s: &str, counter: &'static str) {
+    ctx.st.evaluations += 1;
+    ctx.st.count("split-checked");
+    ctx.st.count(counter);
+    let sep = match ty {
+        "golang" | "npm" => Some('/'),
+        "maven" => Some(':'),
+        _ => None,
+    };
+    if let Some(sep) = sep {
+        let n = s.matches(sep).count();
+        if n >= 1 {
+            ctx.st.count("split:separator-present");
+            ctx.st.nontrivial(fnv(format!("{ty}\u{0}{s}").as_bytes()));
+            if model_split(ty, s).0.is_empty() {
+                ctx.st.count("split:nothing-before-separator");
+            }
+        }
+        if n >= 2 {
+            ctx.st.count("split:several-separators");
+        }
+    }
+    if let Some(f) = judge_split(ty, s) {
+        let kind = f.kind.clone();
+        let min = shrink_str(s, &mut |c| judge_split(ty, c).map_or(false, |g| g.kind == kind));
+        let g = judge_split(ty, &min).unwrap_or(f);
+        ctx.st.violation("C18.combined", format!("C18.combined:{}:{}", g.kind, g.tag), g.detail, json!({"kind": "split", "type": ty, "input": min}));
+    }
+    // the inverse on the PURL this builder gives, if it builds
+    if let Some(t) = mk_typed(ty) {
+        if let Out::Ok(p) = obs::build(Purl::builder_with_combined_name(t, s)) {
+            inverse_case(ctx, &p, json!({"kind": "inverse-of-combined", "type": ty, "input": s}));
+        }
+    }
+}
+
+fn inverse_case(ctx: &mut Ctx, p: &Purl, case: Value) {
+    ctx.st.evaluations += 1;
+    match judge_inverse(p) {
+        Ok(true) => {
+            ctx.st.count("inverse-checked");
+            if p.namespace().is_some() {
+                ctx.st.count("inverse:with-namespace");
+                ctx.st.sample(|| json!({"purl": p.to_string(), "combined_name": p.combined_name(), "splits_back_to": [p.namespace(), p.name()]}));
+            }
+        },
+        Ok(false) => ctx.st.count("inverse-skipped-by-side-condition"),
+        Err(f) => ctx.st.violation("C18.combined", format!("C18.combined:{}:{}", f.kind, f.tag), f.detail, case),
+    }
+}
+
+const SHORT: [char; 5] = ['a', '/', ':', '.', '@'];
+
+pub fn run(ctx: &mut Ctx) {
+    let types: Vec<&'static str> = ALL_TYPES.iter().map(|t| r8(*t)).collect();
+    // complete: every string of length <= 6 over {a, /, :, ., @} x 7 types
+    let mut idx = 0u64;
+    for len in 0..=6usize {
+        let total = 5u64.pow(len as u32);
+        for j in 0..total {
+            idx += 1;
+            if !ctx.mine(idx) {
+                continue;
+            }
+            let mut s = String::new();
+            let mut rem = j;
+            for _ in 0..len {
+                s.push(SHORT[(rem % 5) as usize]);
+                rem /= 5;
+            }
+            for ty in &types {
+                split_case(ctx, ty, &s, "exhaustive:short-strings-x-type");
+            }
+        }
+    }
+    if ctx.worker == 0 {
+        ctx.st.exhaustive.push(json!({"name": "every string of length <= 6 over {a, /, :, ., @} as combined name x 7 types", "size": idx * 7, "completed": true}));
+    }
+    // random hostile strings with separators at random and extreme positions
+    let mut r = ctx.rng("c18.split");
+    for _ in 0..ctx.share(600_000, 12_000_000) {
+        let mut s = gen::mixed_string(&mut r, 0, 20, 40);
+        for _ in 0..r.below(6) {
+            let sep = *r.pick(&['/', ':']);
+            match r.below(4) {
+                0 => s.insert(0, sep),
+                1 => s.push(sep),
+                2 => {
+                    s.push(sep);
+                    s.push(sep);
+                },
+                _ => {
+                    let mut pos = r.below(s.len() + 1);
+                    while !s.is_char_boundary(pos) {
+                        pos -= 1;
+                    }
+                    s.insert(pos, sep);
+                },
+            }
+        }
+        let ty = *r.pick(&types);
+        split_case(ctx, ty, &s, "random-strings");
+    }
+    // the inverse on typed PURLs from the C02 / C08 generators
+    let mut r = ctx.rng("c18.inverse");
+    for _ in 0..ctx.share(300_000, 6_000_000) {
+        let t = spell::gen_tuple(&mut r, true);
+        let mask = spell::random_mask(&mut r);
+        let s = spell::spell(&mut r, &t, mask).assemble();
+        if let Out::Ok(p) = obs::parse::<PackageType>(&s) {
+            inverse_case(ctx, &p, json!({"kind": "inverse-of-parsed", "input": s}));
+        }
+    }
+}
+
+pub fn replay(_monitor: &str, case: &Value) -> Result<Option<Fail>, String> {
+    match str_field(case, "kind")? {
+        "split" => Ok(judge_split(str_field(case, "type")?, str_field(case, "input")?)),
+        "inverse-of-parsed" => Ok(judge_inverse_str(str_field(case, "input")?).and_then(|r| r.err())),
+        "inverse-of-combined" => {
+            let t = mk_typed(str_field(case, "type")?).ok_or("unknown type")?;
+            Ok(match obs::build(Purl::builder_with_combined_name(t, str_field(case, "input")?)) {
+                Out::Ok(p) => judge_inverse(&p).err(),
+                _ => None,
+            })
+        },
+        o => Err(format!("unknown case kind {o}")),
+    }
 }
